@@ -134,4 +134,3 @@ func opLex(f []string) string {
 	return "ok" + sb.String()
 }
 
-func childWorkerMain() {}
